@@ -24,55 +24,75 @@ def r02_3(rep, mod, rule='R02.3'):
             f = st
     rep.require(f is not None, 'Specification.__setBases vanished')
     site = 'Specification.__setBases'
-    cfg = cfg_of(f)
-    store = [n for n in cfg.nodes if isinstance(n.ast, ast.Assign)
-             and match('self._bases = bases', n.ast, 'exec') is not None]
-    rep.check(rule, site, len(store) == 1, 'stores self._bases = bases',
-              construct='store', node=f)
-    if len(store) != 1:
-        return
-    st = store[0]
-
-    def full_loop(src_pats, call):
-        for lp in walk_local(f):
-            if not isinstance(lp, ast.For) or not isinstance(lp.target, ast.Name):
-                continue
-            s, d = iter_polarity(lp.iter)
-            if not any(match(p, s) is not None for p in src_pats):
-                continue
-            v = lp.target.id
-            cs = find_all(lp, '%s.%s(self)' % (v, call))
-            if not cs:
-                continue
-            uncond = isinstance(cs[0][0].parent, ast.Expr) and \
-                cs[0][0].parent.parent is lp
-            exits = [n for n in walk_local(lp) if isinstance(
-                n, (ast.Break, ast.Return, ast.Continue))]
-            return lp, uncond and not exits
-        return None, False
-    ul, oku = full_loop(['self.__bases__', 'self._bases'], 'unsubscribe')
-    sl, oks = full_loop(['bases', 'self._bases', 'self.__bases__'], 'subscribe')
-    okub = ul is not None and cfg.dominated_by(st, lambda n: n.ast is ul)
-    rep.check(rule, site, oku and okub,
+    from ..sympath import summaries as _S, normal as _N
+    from .sem import nt as _nt
+    from ..pyfront import inlined as _inl
+    f = _inl(f)
+    p_store, p_un, p_sub, p_chg = [], [], [], []
+    ss = _N(_S(f))
+    bases_p = [a.arg for a in f.args.args][-1]
+    OLD = ('self.__bases__', 'self._bases')
+    nold = nnew = 0
+    for ps in ss:
+        st = [e for e in ps.stores() if _nt(e.r) == 'self._bases']
+        if len(st) != 1 or _nt(st[0].val) != bases_p:
+            p_store.append('stores %s' % [repr(e)[:40] for e in st])
+            continue
+        si = ps.index(st[0])
+        facts_each = [c for c, t, p in ps.order if 'EACH(' in c and not c.startswith('ITER(')]
+        if facts_each:
+            p_un.append('(un)subscription depends on `%s`' % facts_each[0][:60])
+        un = [e for e in ps.events if e.kind == 'call' and
+              isinstance(e.r.func, ast.Attribute) and e.r.func.attr == 'unsubscribe']
+        sub = [e for e in ps.events if e.kind == 'call' and
+               isinstance(e.r.func, ast.Attribute) and e.r.func.attr == 'subscribe']
+        old_it = [c for c, t, p in ps.order if t and c in ['ITER(%s)' % o for o in OLD]
+                  and p <= si]
+        if old_it:
+            nold += 1
+            E = 'EACH(%s)' % old_it[0][5:-1]
+            if [_nt(e.r) for e in un] != ['%s.unsubscribe(self)' % E] or \
+                    ps.index(un[0]) > si:
+                p_un.append('old bases: %s' % [_nt(e.r)[:50] for e in un])
+        elif un:
+            p_un.append('unsubscribes from `%s`' % _nt(un[0].r)[:50])
+        new_src = [bases_p, 'self._bases', 'self.__bases__']
+        new_it = [(c, p) for c, t, p in ps.order if t and c in ['ITER(%s)' % o for o in new_src]
+                  and p > si]
+        if new_it:
+            nnew += 1
+            E = 'EACH(%s)' % new_it[0][0][5:-1]
+            if [_nt(e.r) for e in sub] != ['%s.subscribe(self)' % E] or \
+                    ps.index(sub[0]) < si:
+                p_sub.append('new bases: %s' % [_nt(e.r)[:50] for e in sub])
+        elif sub:
+            p_sub.append('subscribes to `%s`' % _nt(sub[0].r)[:50])
+        last = ps.events[-1] if ps.events else None
+        ch = [e for e in ps.events if e.kind == 'call' and _nt(e.r) == 'self.changed(self)']
+        if len(ch) != 1 or last is not ch[0]:
+            p_chg.append('self.changed(self) called %d times / not last' % len(ch))
+    for lp in walk_local(f):
+        if isinstance(lp, ast.For) and [n for n in walk_local(lp) if isinstance(
+                n, (ast.Break, ast.Return, ast.Continue))]:
+            p_un.append('a walk over the bases can end early')
+    if not nold:
+        p_un.append('no path walks the old bases')
+    if not nnew:
+        p_sub.append('no path walks the new bases')
+    rep.check(rule, site, bool(ss) and not p_store, 'stores self._bases = bases'
+              if not p_store else {'problems': p_store[:2]}, construct='store', node=f)
+    rep.check(rule, site, not p_un,
               'unsubscribes from EVERY old base (unconditionally, by object) '
-              'before the store', construct='unsubscribe-all', node=f)
-    oksa = sl is not None and st.id not in cfg.reach(cfg.node_of(sl)) and \
-        cfg.dominated_by(cfg.node_of(sl), lambda n: n is st) if sl is not None else False
-    if sl is not None:
-        s, d = iter_polarity(sl.iter)
-        if match('bases', s) is None:
-            oksa = oksa and True
-    rep.check(rule, site, oks and bool(oksa),
-              'subscribes to EVERY new base (unconditionally) after the store',
+              'before the store' if not p_un else {'problems': sorted(set(p_un))[:2]},
+              construct='unsubscribe-all', node=f)
+    rep.check(rule, site, not p_sub,
+              'subscribes to EVERY new base (unconditionally) after the store'
+              if not p_sub else {'problems': sorted(set(p_sub))[:2]},
               construct='subscribe-all', node=f)
-    chg = pred_of('self.changed(self)')
-    okc = must(cfg, chg)
-    cn = [n for n in cfg.nodes if n.ast is not None and chg(n)]
-    oklast = okc and all(cfg.dominated_by(n, lambda m: m is st) for n in cn) and \
-        (sl is None or all(cfg.dominated_by(n, lambda m: m.ast is sl) for n in cn))
-    rep.check(rule, site, oklast,
-              'calls self.changed(self) last, on every path', construct='changed',
-              node=f)
+    rep.check(rule, site, not p_chg,
+              'calls self.changed(self) last, on every path'
+              if not p_chg else {'problems': sorted(set(p_chg))[:2]},
+              construct='changed', node=f)
     prop = class_attr_assign(cls, '__bases__')
     okp = False
     if prop is not None:
